@@ -63,7 +63,9 @@ func definitelyNonNil(v ssa.Value, b *ssa.BasicBlock) bool {
 			return true // a boxed non-interface value makes a non-nil interface (a typed nil pointer is still a non-nil error)
 		}
 	case *ssa.Call:
-		return alwaysNonNilError(v.Call.StaticCallee())
+		if alwaysNonNilError(v.Call.StaticCallee()) {
+			return true
+		}
 	}
 	// dominated by the true edge of `v != nil` (or false edge of `v == nil`)
 	f := b.Parent()
